@@ -132,6 +132,12 @@ def units(tier, seed):
                 continue
             for ev in ("seq", "vpar"):
                 us.append({"kind": "pop", "pop": list(pop), "evaluator": ev, "calls": 2 if tier == "quick" else 3})
+    for n in (1, 2):
+        for pop in itertools.product(KINDS, repeat=n):
+            if pop[0] == "dup":
+                continue
+            for ev in ("seq", "vpar"):
+                us.append({"kind": "pop", "pop": list(pop), "evaluator": ev, "calls": 3, "plan": "pq"})
     real = [[], ["new"], ["new", "new"], ["new", "has_p"], ["has_p", "new", "new"], ["new", "dup", "new"], ["has_q", "new"], ["has_p"],
             ["new", "new", "new"]]
     for pop in real:
@@ -199,6 +205,8 @@ def run_pop(unit) -> UnitResult:
                     pm.ProcessingPool = real_pool
             obs = []
             plan = [("evaluate", p), ("async", p), ("evaluate", q)][: unit["calls"]]
+            if unit.get("plan") == "pq":  # one evaluator object serving two problems in turn
+                plan = [("evaluate", p), ("evaluate", q), ("async", p)]
             for how, prob in plan:
                 c0 = ev.number_of_evaluations()
                 l0 = len(read_log(path_p)) + len(read_log(path_q))
